@@ -436,6 +436,8 @@ def extra_scenarios(ctx, rng):
             for e2 in edits:
                 pk = [RK(i) for i in range(6)]
                 pv = [RV(i) for i in range(8)]
+                nxt = cls()
+                nxt.add(pk[5]) if setlike else nxt.__setitem__(pk[5], pv[7])
                 base = [sys.getrefcount(o) for o in pk + pv]
 
                 def state(edit):
@@ -452,6 +454,9 @@ def extra_scenarios(ctx, rng):
                         b.clear()
                     return b.__getstate__()
                 s0, s1, s2 = state(("nop", 0)), state(e1), state(e2)
+                # ... and the same three states of a leaf that HAS a successor: the merged state refers to it too, and the
+                # successor bucket must end with the references it had (one too few frees it while the tree links it)
+                base_n = sys.getrefcount(nxt)
                 outcome = "merged"
                 try:
                     r = cls()._p_resolveConflict(s0, s1, s2)
@@ -459,12 +464,22 @@ def extra_scenarios(ctx, rng):
                 except Exception as e:  # noqa
                     outcome = type(e).__name__
                     del e
-                del s0, s1, s2
+                t0, t1, t2 = s0[:1] + (nxt,), s1[:1] + (nxt,), s2[:1] + (nxt,)
+                try:
+                    r = cls()._p_resolveConflict(t0, t1, t2)
+                    del r
+                except Exception as e:  # noqa
+                    del e
+                del s0, s1, s2, t0, t1, t2
                 gc.collect()
                 now = [sys.getrefcount(o) for o in pk + pv]          # measured exactly like 'base'
                 off = [a - b for a, b in zip(now, base)]
+                off_n = sys.getrefcount(nxt) - base_n
                 nB += 1
                 ctx.count(("mergeref", kind, e1, e2))
+                if off_n:
+                    ctx.oracle_failure("C:%s:conflict-merge:successor-refcount" % kind, "OO%s: resolving original [1,2,3] against %r and %r (%s) on a leaf that has a successor: the successor bucket ends with %+d reference(s)" % (
+                        kind, e1, e2, outcome, off_n), {"kind": kind, "e1": e1, "e2": e2})
                 if any(off):
                     ctx.oracle_failure("C:%s:conflict-merge:leak" % kind, "OO%s: resolving original [1,2,3] against %r and %r (%s): %d probe object(s) keep %r extra reference(s) after everything was dropped" % (
                         kind, e1, e2, outcome, sum(1 for x in off if x), sorted(set(x for x in off if x))), {"kind": kind, "e1": e1, "e2": e2})
